@@ -597,6 +597,24 @@ theorem pipelined_in_order (buf data : Bytes) (hd : data ≠ []) :
   simp only [hne, Bool.false_eq_true, ↓reduceIte]
   rw [drain_append sizeOf buf.length .head buf data (Nat.le_refl _)]
 
+/-- **handshake_seg_independent**: the parent proxy's CONNECT reply (`receive_handshake_data`) is read by the same lawful
+    machine: every segmentation of the reply — also one whose first segment is shorter than "HTTP/" — gives the same verdict
+    (tunnel open / refused) and leaves the same bytes for the tunnel as whole delivery -/
+theorem handshake_seg_independent (s : St) (segs : List Bytes) :
+    (machine handshakeSize).feedAll s segs = (machine handshakeSize).feed s segs.flatten :=
+  h1_seg_independent handshakeSize s segs
+
+/-- "HTTP/1.1 200 OK\r\n\r\n" -/
+def connectReply : Bytes := [72,84,84,80,47,49,46,49,32,50,48,48,32,79,75,13,10,13,10]
+example : (feed handshakeSize ⟨.head, []⟩ connectReply).2 = [.msg [[72,84,84,80,47,49,46,49,32,50,48,48,32,79,75]] []] := by decide +kernel
+example : ((machine handshakeSize).feedAll ⟨.head, []⟩ [connectReply.take 2, connectReply.drop 2]).2 =
+    (feed handshakeSize ⟨.head, []⟩ connectReply).2 := by decide +kernel
+example : ((machine handshakeSize).feedAll ⟨.head, []⟩ (([13, 10] ++ connectReply).map fun c => [c])).2 =
+    (feed handshakeSize ⟨.head, []⟩ ([13, 10] ++ connectReply)).2 := by decide +kernel
+/-- a 407 is a refusal -/
+example : (feed handshakeSize ⟨.head, []⟩ [72,84,84,80,47,49,46,49,32,52,48,55,32,78,13,10,13,10]).2 =
+    [.reject [[72,84,84,80,47,49,46,49,32,52,48,55,32,78]]] := by decide +kernel
+
 /-! ### F-C02a: the machine before the fix is *not* segmentation independent -/
 
 /-- "\r\nGET / HTTP/1.1\r\n\r\n" -/
